@@ -361,7 +361,8 @@ class Surrogates(Cached):
             print("Generating correlated noise surrogates...")
 
         #  Calculate FFT of original_data time series
-        surrogates = self.original_data_fft()
+        #  (copy: the cached FFT must not be modified by the phase shift)
+        surrogates = self.original_data_fft().copy()
 
         #  Get shapes
         len_phase = surrogates.shape[1]
